@@ -1288,7 +1288,7 @@ func b16LiteralBlanks(r *Rng) Record {
 		if len(sel) == 0 {
 			return "err member"
 		}
-		return "ok [" + ValsSexp(sel) + "]"
+		return "ok " + JSONText(sel)
 	}
 	spell := func(lit string, style int) string {
 		l := "/" + lit + "/"
@@ -1329,7 +1329,7 @@ func b16LiteralBlanks(r *Rng) Record {
 		}
 		got := "err " + out.ErrKind
 		if out.OK {
-			got = "ok [" + ValsSexp(out.Vals) + "]"
+			got = "ok " + JSONText(out.Vals)
 		} else if out.ErrKind == "panic" {
 			got = "panic " + firstLines(out.Panic, 1)
 		}
@@ -1496,5 +1496,5 @@ func b16C15(r *Rng, n int) Record {
 
 // b16C02: a user function that panics / errs at its K-th call through Retrieve and through Parse + call.
 func b16C02(r *Rng, n int) Record {
-	return b16HistoryRecord(r, []string{"fn-panic", "fn-panic", "fn-err"}, 20, 100)
+	return b16HistoryRecord(r, []string{"fn-panic", "fn-panic", "fn-err"}, 20, 70)
 }
